@@ -2,7 +2,9 @@
 configuration, coverage floors, and evidence level."""
 import os
 
-def eggmon(bin_dir, mon, label, seed, tier, n=None, threads=1, env=None, extra=None, timeout=3000, on_crash="inconclusive"):
+def eggmon(bin_dir, mon, label, seed, tier, n=None, threads=1, env=None, extra=None, timeout=None, on_crash="inconclusive"):
+    if timeout is None:
+        timeout = 3000 if tier == "quick" else 14000
     argv = [os.path.join(bin_dir, "eggmon"), mon, "--seed", str(seed), "--tier", tier, "--out", "{out}", "--threads", str(threads)]
     if n is not None:
         argv += ["--n", str(n)]
@@ -427,7 +429,7 @@ def c05_jobs(tier, seed, bin_dir, replay):
     for j, env, lab in [(2, ALL_ZERO, "j2-zero"), (4, ALL_ZERO, "j4-zero"), (8, ALL_ZERO, "j8-zero"),
                         (4, {"EGGLOG_PARALLEL_TABLE_OP_CUTOFF": "0"}, "j4-tableop0"),
                         (3, _cut(EGGLOG_PARALLEL_ACTION_BATCH_SIZE=7), "j3-batch7")]:
-        js.append(eggmon(bin_dir, "c05", f"c05-{lab}", seed * 1000 + 90 + j, tier, n=((150 if "tableop" in lab else 50) if q else 4000), threads=j, env=env, on_crash="violation"))
+        js.append(eggmon(bin_dir, "c05", f"c05-{lab}", seed * 1000 + 90 + j, tier, n=((150 if "tableop" in lab else 50) if q else 1500), threads=j, env=env, on_crash="violation"))
     return js
 
 
@@ -438,7 +440,7 @@ PLANS["C05"] = {
     "level_text": "Write multisets over lattice-merge functions (min, max, or, and, set-union, set-intersect, nested function merge) whose keys are e-class terms collapsed by unions and congruence are replayed in 6 orders and batchings (one command per write, one rule firing, split over iterations with unions in rule heads, before/after rebuild, through the Rust update API); the stored table must equal the harness' fold and all replays must agree. :no-merge conflicts (direct and created by a union) must raise an error, equal writes must not. Serial children plus 2/3/4/8-thread children with parallel cut-offs 0.",
     "level_note": "The fold is computed by ~40 lines of harness code over a 9-term key universe; lattices whose join is neither input (set-union, or) are mandatory because min/max hide a lost merge.",
     "floors": {"quick": {"replays": 10000, "keys_checked": 40000, "nomerge_cases": 2000, "multisets_with_collisions_or_collapsed_keys": 1500},
-               "thorough": {"replays": 500000, "keys_checked": 2000000, "nomerge_cases": 90000, "multisets_with_collisions_or_collapsed_keys": 80000}},
+               "thorough": {"replays": 100000, "keys_checked": 400000, "nomerge_cases": 20000, "multisets_with_collisions_or_collapsed_keys": 15000}},
     "assumptions": ["dump via public read API", "cut-offs are read once per process from the environment"],
 }
 
@@ -447,9 +449,9 @@ def c01_jobs(tier, seed, bin_dir, replay):
         return [eggmon(bin_dir, "exec", "replay", seed, tier, extra={"file": replay})]
     q = tier == "quick"
     js = shards(bin_dir, "c01", seed, tier, 2000, 100000)
-    js.append(eggmon(bin_dir, "c01", "c01-par4", seed * 1000 + 99, tier, n=(60 if q else 5000), threads=4, env=ALL_ZERO, extra={"big-every": 0}))
+    js.append(eggmon(bin_dir, "c01", "c01-par4", seed * 1000 + 99, tier, n=(60 if q else 2000), threads=4, env=ALL_ZERO, extra={"big-every": 0}))
     # threshold-crossing databases under the parallel rebuild configuration
-    js.append(eggmon(bin_dir, "c01", "c01-big-par4", seed * 1000 + 98, tier, n=(1 if q else 12), threads=4,
+    js.append(eggmon(bin_dir, "c01", "c01-big-par4", seed * 1000 + 98, tier, n=(1 if q else 6), threads=4,
                      env={"EGGLOG_PARALLEL_REBUILD_CUTOFF": "0", "EGGLOG_PARALLEL_TABLE_OP_CUTOFF": "0"}, extra={"big-every": 1}))
     return js
 
@@ -461,29 +463,29 @@ PLANS["C01"] = {
     "level_text": "Generated monotone histories (rule-free; with rules, rewrites and schedules; congruence-chain templates; >10 000-row tables with a few unions so that the incremental rebuild runs) are executed on the engine and on a ~500-line reference interpreter (explicit partition, rebuild fixpoint, nested-loop matching). After every command the databases must be equal up to renaming of ids, every check must agree, and sampled pairs of ground terms up to depth 2 (3 in thorough) must be reported equal exactly when the reference closure says so - negative answers included. Serial and 4-thread/cut-off-0 configurations.",
     "level_note": "A disagreement is reported as a violation only after the reference model passed its own self-check (canonical rows, unique keys = its partition is a congruence containing every asserted union; it is the least one by construction). Extraction landing in the class is C07's membership check. Reach is bounded by the generator's grammar (no containers here: C14).",
     "floors": {"quick": {"dump_comparisons": 40000, "pair_questions": 400000, "pair_questions_equal": 20000, "histories_congruence_worked": 1000, "path:table_rebuild_incremental": 1, "big_cases": 4},
-               "thorough": {"dump_comparisons": 2000000, "pair_questions": 40000000, "pair_questions_equal": 1000000, "histories_congruence_worked": 50000, "path:table_rebuild_incremental": 100, "big_cases": 100}},
+               "thorough": {"dump_comparisons": 400000, "pair_questions": 4000000, "pair_questions_equal": 200000, "histories_congruence_worked": 10000, "path:table_rebuild_incremental": 1, "big_cases": 40}},
     "assumptions": ["dump via public read API", "reference model = harness/eggmon/src/model.rs"],
 }
 
 PLANS["C02"] = {
-    "jobs": simple_jobs("c02", 1200, 60000, par_n=(40, 4000)),
+    "jobs": simple_jobs("c02", 1200, 60000, par_n=(40, 1500)),
     "level": "exploration",
     "technique": "reference-oracle runtime monitor: independent hash-join evaluation of each rule body over the engine's pre-run dump vs the rows the run actually wrote; every body with and without :no-decomp; three runs per database with growth / unions / deletions / subsumptions in between",
     "level_text": "Conjunctive bodies of every hypergraph shape the property lists (chains, stars, 3/4/5-cycles, 4-cliques, lollipops, products, repeated variables, constants, i64 columns, function and constructor atoms, duplicates, primitive guards, computed variables) over generated databases (0..400 rows per table, skews, sizes straddling the 32-tuple re-sort threshold, subsumed rows, unions) write all their variables to an Out relation; after each run Out must equal Out_before + the oracle's matches on the database as it stood when the iteration began. The same rules are re-run after the database changed (cached plans). Decomposition on/off (rule option and global flag); serial and 4-thread/cut-off-0 children.",
     "level_note": "The oracle is ~120 lines of hash joins over the dump (public read API) and shares no code with the engine or with C01's model. Planner strategies other than the language's default (Gj) are reachable only through internal rebuild rules; they are exercised by every rebuild but not varied here.",
     "floors": {"quick": {"rule_runs_judged": 10000, "rule_runs_nontrivial": 2000, "path:plan_decomposed": 500, "path:plan_dynamic_resort": 10000, "matches_expected_total": 500000},
-               "thorough": {"rule_runs_judged": 500000, "rule_runs_nontrivial": 100000, "path:plan_decomposed": 25000, "path:plan_dynamic_resort": 500000, "matches_expected_total": 25000000}},
+               "thorough": {"rule_runs_judged": 100000, "rule_runs_nontrivial": 20000, "path:plan_decomposed": 5000, "path:plan_dynamic_resort": 100000, "matches_expected_total": 5000000}},
     "assumptions": ["dump via public read API", "heads only insert into fresh Out relations, so ids are stable across the run"],
 }
 
 PLANS["C18"] = {
-    "jobs": simple_jobs("c18", 4000, 200000, par_n=(40, 6000)),
+    "jobs": simple_jobs("c18", 4000, 200000, par_n=(40, 2000)),
     "level": "exploration",
     "technique": "event-log monitor on an instrumented Scheduler: conservation accounting of offered/chosen/residual matches per step, nested-loop match oracle on the pre-step dump, probe relations for applied actions, differential vs built-in stepping and saturation, C04 invariants after every step",
     "level_text": "Generated programs are stepped through an instrumented scheduler under six policies (all, none-then-all, random subsets incl. double choose, one at a time, first-n back-off, never-reseek) while the harness writes unions / inserts / subsumes between steps so that held-back matches go stale. Per step: unchosen matches must be offered again (multiset, modulo current equalities); every oracle match of the body on the pre-step database must have been offered whenever the scheduler asked to seek; every fresh offer must be an oracle match (none rests on a subsumed row); each head carries a probe insert and the probe must equal probe_before + chosen under post-step ids; C04 invariants; choose-all = built-in (run rs 1) on a sibling; fair policies = built-in saturation; rulesets and schedulers intact after a failing step.",
     "level_note": "Match oracle = model.rs nested loops over the engine's own pre-step dump. Rule bodies are written `(= (C ..) v)` because Match::get_value looks variables up by the name that survives rule canonicalisation. Rules build no new terms, so programs are confluent and terminating, which is what makes the saturation comparison meaningful.",
     "floors": {"quick": {"steps": 20000, "probe_checks": 40000, "completeness_checks": 40000, "residual_matches_tracked": 5000, "choose_all_vs_builtin": 4000, "saturation_comparisons": 1000, "programs_with_delayed_application": 600, "failing_steps_followed_up": 200},
-               "thorough": {"steps": 1000000, "probe_checks": 2000000, "completeness_checks": 2000000, "residual_matches_tracked": 250000, "choose_all_vs_builtin": 200000, "saturation_comparisons": 75000, "programs_with_delayed_application": 40000, "failing_steps_followed_up": 10000}},
+               "thorough": {"steps": 200000, "probe_checks": 400000, "completeness_checks": 400000, "residual_matches_tracked": 50000, "choose_all_vs_builtin": 40000, "saturation_comparisons": 10000, "programs_with_delayed_application": 6000, "failing_steps_followed_up": 2000}},
     "assumptions": ["dump via public read API", "Scheduler trait is the public egglog::scheduler API"],
 }
 
@@ -496,7 +498,7 @@ def c14_jobs(tier, seed, bin_dir, replay):
     js.append(eggmon(bin_dir, "c14", "c14-par4-containers0", seed * 1000 + 97, tier, n=(60 if q else 4000), threads=4, env=cont0, extra={"big-every": 20}))
     # hostile blocks only (in-place rebuilt container colliding with an older/younger equal one), parallel rebuild
     for j in (2, 4):
-        js.append(eggmon(bin_dir, "c14", f"c14-par{j}-hostile", seed * 1000 + 90 + j, tier, n=(700 if q else 30000), threads=j, env=cont0, extra={"big-every": 0, "hostile-only": 1}))
+        js.append(eggmon(bin_dir, "c14", f"c14-par{j}-hostile", seed * 1000 + 90 + j, tier, n=(700 if q else 10000), threads=j, env=cont0, extra={"big-every": 0, "hostile-only": 1}))
     js.append(eggmon(bin_dir, "c14", "c14-par4-zero", seed * 1000 + 99, tier, n=(30 if q else 3000), threads=4, env=ALL_ZERO, extra={"big-every": 0}))
     return js
 
@@ -508,7 +510,7 @@ PLANS["C14"] = {
     "level_text": "Histories over 11 container sorts (Vec, Set, MultiSet, Map with eq values, Map with non-colliding eq keys, Pair, and nested Vec<Vec>, Set<Pair>, Map<i64,Vec>, Vec<Set>; elements may be boxed containers) insert containers, write container-keyed functions and union leaves. Because only leaves are unioned, equality of container terms is decided by ~40 lines of normal-form code; after every command every table's row count must equal the number of distinct normal forms, sampled (check (= t1 t2)) must agree, the database must be canonical (no stale id inside a container, no duplicate container ids), and after every single rule iteration the outputs of join rules through container-keyed tables and of primitive rules (length, contains, count, get, first/second) must have the model's size on a semi-naive and a naive e-graph whose dumps must also be equal. Threshold cases with > 1000 containers reach the incremental container rebuild; parallel children force the parallel rebuild variants.",
     "level_note": "Map key collisions are outside the claim and are refused by the generator on the model before a union is issued. Unions are only between leaves, which keeps the model trivially right; unions between boxed containers are covered by C03/C04's generators.",
     "floors": {"quick": {"size_checks": 2000000, "iterations": 2000, "pair_questions": 80000, "histories_union_changed_container": 800, "path:container_rebuild_incremental": 1, "path:container_rebuild_nonincremental_parallel": 1, "path:table_refresh_rows_for_values": 1000},
-               "thorough": {"size_checks": 100000000, "iterations": 100000, "pair_questions": 4000000, "histories_union_changed_container": 40000, "path:container_rebuild_incremental": 100, "path:container_rebuild_nonincremental_parallel": 100, "path:table_refresh_rows_for_values": 50000}},
+               "thorough": {"size_checks": 20000000, "iterations": 20000, "pair_questions": 800000, "histories_union_changed_container": 8000, "path:container_rebuild_incremental": 1, "path:container_rebuild_nonincremental_parallel": 1, "path:table_refresh_rows_for_values": 10000}},
     "assumptions": ["dump via public read API", "EGraph::get_size reports live rows"],
 }
 
@@ -542,18 +544,18 @@ PLANS["C16"] = {
     "level_text": "Thousands of random operation sequences (60 and 200 operations) drive Database / SortedWritesTable / DisplacedTable through the public API while a 40-line map model is updated in step; after every visible operation every read the property lists is compared with the model: len, point lookups of present and absent keys, full scans (each live row once), scans under Eq/EqConst/Lt/Le/Gt/Ge constraints on the sort column and on others, fast_subset, updates_since within a major generation, and one- and two-atom queries through cached hash indexes whose plans were compiled earlier and are re-instantiated against the current database. Sequences cross the compaction threshold and bump generations between an index build and its next use.",
     "level_note": "The harness follows the documented protocol (buffers are dropped before anything that merges; RuleSets are one-shot, CachedPlans long-lived; extra constraints on cached plans are sort-column comparisons; non-commutative merge functions get one write per key per round; rebuilt tables use a commutative merge). Those are restrictions of the generator, not of the oracle.",
     "floors": {"quick": {"steps_checked": 100000, "reads": 3000000, "rule_set_queries": 200000, "rule_set_queries_nonempty": 60000, "rebuilds": 15000, "clones": 8000, "generation_bumps_observed": 500, "path:table_parallel_insert": 1},
-               "thorough": {"steps_checked": 5000000, "reads": 150000000, "rule_set_queries": 10000000, "rule_set_queries_nonempty": 3000000, "rebuilds": 700000, "clones": 400000, "generation_bumps_observed": 25000, "path:table_parallel_insert": 100}},
+               "thorough": {"steps_checked": 1000000, "reads": 30000000, "rule_set_queries": 2000000, "rule_set_queries_nonempty": 600000, "rebuilds": 150000, "clones": 80000, "generation_bumps_observed": 5000, "path:table_parallel_insert": 1}},
     "assumptions": ["model = BTreeMap<key,row> + min-leader union-find in harness/relmon/src/main.rs"],
 }
 
 PLANS["C12"] = {
-    "jobs": simple_jobs("c12", 600, 40000, par_n=(40, 3000), witness_dir="witnesses/C12"),
+    "jobs": simple_jobs("c12", 600, 40000, par_n=(40, 1500), witness_dir="witnesses/C12"),
     "level": "other",
     "technique": "differential prove<=>check monitor + panic monitor + independent structural proof walker + mutation monitor on the in-tree proof checker (program alterations and single-point proof alterations must be rejected)",
     "level_text": "For generated proof-supported programs run on a plain and a proofs e-graph: sampled true and false facts must be provable exactly when check succeeds on the plain engine; prove must not panic; every returned proof must be accepted by the in-tree checker against the original program and by an independent structural walker (Trans middle terms, Sym flip, Congr child index and rebuilt term); and the in-tree checker must reject the proof against a program from which a rule it names, or every action and rule mentioning the constructor of one of its Fiat leaves, was removed, and must reject single-point alterations that are unjustified on syntactic grounds (swapped Trans operands whose end terms differ, a Congr index pointing at another argument, a dropped Rule premise, a Fiat leaf equated with a term of another sort).",
     "level_note": "Checker soundness is a universal claim; this decides it only against the listed alteration classes. Alterations my structural walker still accepts are discarded as semantically neutral. Facts never rest on subsumed rows (no subsume is generated), so prove<=>check is claimed without exclusions. Merge-function alterations are not probed.",
     "floors": {"quick": {"facts": 6000, "facts_true": 3000, "proofs": 3000, "probes_rule_removed": 1000, "probes_fact_removed": 4000, "probes_proof_altered": 10000, "proofs_with_Rule": 800, "proofs_with_Congr": 1500},
-               "thorough": {"facts": 400000, "facts_true": 200000, "proofs": 200000, "probes_rule_removed": 60000, "probes_fact_removed": 250000, "probes_proof_altered": 600000, "proofs_with_Rule": 50000, "proofs_with_Congr": 100000}},
+               "thorough": {"facts": 60000, "facts_true": 30000, "proofs": 30000, "probes_rule_removed": 10000, "probes_fact_removed": 40000, "probes_proof_altered": 100000, "proofs_with_Rule": 8000, "proofs_with_Congr": 15000}},
     "coverage_extra": lambda c, t: {"explanation": "mutation classes probed on the in-tree checker: rule removed from the checking program (%d), facts/actions removed (%d), proof alterations SwapTrans/CongrIndex/DropPremise/FiatRhs (%d, of which %d discarded as neutral); prove<=>check on %d facts (%d true)" % (c.get("probes_rule_removed", 0), c.get("probes_fact_removed", 0), c.get("probes_proof_altered", 0), c.get("probes_neutral_discarded", 0), c.get("facts", 0), c.get("facts_true", 0))},
     "assumptions": ["plain engine's check is the reference for provability", "hook verif_check_proof runs the unmodified in-tree ProofStore::check_proof"],
 }
